@@ -4,6 +4,7 @@ The error printer lists `vm.GetCallStack()` bottom to top, each frame with its m
 Theorems about how the model maintains those two things.
 -/
 import ZnVerif.Model.Interp
+import ZnVerif.Proofs.Toy
 set_option linter.unusedSectionVars false
 
 namespace ZnVerif.Properties.C18
@@ -12,10 +13,11 @@ open ZnVerif.Model
 variable {ν : Type} [NumOps ν]
 
 /-- before anything of a statement is evaluated, the innermost active frame carries that statement's line
-(so an error raised anywhere inside it is reported on the line of the innermost statement being executed) -/
+(so an error raised anywhere inside it is reported on the line of the innermost statement being executed) and is
+marked started (`CallFrame.lineSet`): every frame in which a statement has begun is started -/
 theorem statement_sets_line (st : Stmt) (s : VM ν) (fr : Frame) (rest : List Frame) (hs : s.stack = fr :: rest) :
-    (setTopFrame (fun f => { f with line := st.line }) s).2.stack = { fr with line := st.line } :: rest ∧
-    (setTopFrame (fun f => { f with line := st.line }) s).2.heap = s.heap := by
+    (setTopFrame (fun f => { f with line := st.line, started := true }) s).2.stack = { fr with line := st.line, started := true } :: rest ∧
+    (setTopFrame (fun f => { f with line := st.line, started := true }) s).2.heap = s.heap := by
   simp [setTopFrame, modifyVM, hs]
 
 /-- a call adds exactly one frame on top; the frames below (the call sites, with their lines) are untouched -/
@@ -37,5 +39,60 @@ theorem unwind_drops_failed_calls (depth : Nat) (s : VM ν) (h : depth ≤ s.sta
   split
   · omega
   · simp; omega
+
+/-- the frame a call pushes (`NewFunctionCallFrame`: method, object method, constructor; `NewExceptionCallFrame`: handler
+block) has not started: it stays `started = false`, `line = 0` until the first statement of the callee sets its line -/
+theorem call_frame_starts_unstarted (mid : Int) (ct : Nat) (this : Option Addr) (s : VM ν) :
+    ∃ fr, (pushFrame { moduleId := mid, callType := ct, this := this } s).2.stack = fr :: s.stack ∧
+      fr.started = false ∧ fr.line = 0 ∧ fr.moduleId = mid :=
+  ⟨_, push_keeps_call_sites _ s, rfl, rfl, rfl⟩
+
+example : ∃ fr, (pushFrame { moduleId := 0, callType := 2, this := none } (initVM () : VM Int)).2.stack = [fr] ∧
+    fr.started = false := by
+  obtain ⟨fr, h1, h2, _⟩ := call_frame_starts_unstarted 0 2 none (initVM () : VM Int)
+  exact ⟨fr, h1, h2⟩
+
+/-- `unstarted_frame_not_listed`.  What the error printer shows (`listedFrames`, bottom → top): the head frame always;
+of the others exactly those that are built-in / library code or in which a statement has begun.  A frame of a module
+with source text that never started — a call that failed on its argument count, a call of something that is not a
+method — is not in the chain (it has no line of its own: the fault is the caller's). -/
+theorem unstarted_frame_not_listed (vm : VM ν) (head : Frame) (body : List Frame)
+    (h : vm.stack.reverse = head :: body) :
+    listedFrames vm = head :: body.filter (fun fr => fr.isNative vm || fr.started) ∧
+    (∀ fr ∈ body, fr.isNative vm = false → fr.started = false → fr ∉ (listedFrames vm).tail) ∧
+    (∀ fr ∈ body, (fr.isNative vm = true ∨ fr.started = true) → fr ∈ (listedFrames vm).tail) := by
+  have h0 : listedFrames vm = head :: body.filter (fun fr => fr.isNative vm || fr.started) := by
+    unfold listedFrames; rw [h]
+  refine ⟨h0, ?_, ?_⟩
+  · intro fr _ h1 h2 hmem
+    rw [h0] at hmem
+    simp [List.mem_filter, h1, h2] at hmem
+  · intro fr hfr h1
+    rw [h0]
+    simp only [List.tail_cons, List.mem_filter, Bool.or_eq_true]
+    exact ⟨hfr, h1⟩
+
+/-- the caller's started frame, a callee frame of the same program module that never started: only the caller is listed -/
+example : listedFrames ({ (initVM () : VM Int) with
+      modules := #[{ name := "主模块", hasProgram := true }],
+      stack := [{ moduleId := 0, callType := 2 }, { moduleId := 0, callType := 1, line := 4, started := true }] }) =
+    [{ moduleId := 0, callType := 1, line := 4, started := true }] := by
+  rfl
+
+/-- the frame of a library function (module without source text) is listed although no statement ran in it -/
+example : (listedFrames ({ (initVM () : VM Int) with
+      modules := #[{ name := "主模块", hasProgram := true }, { name := "@JSON", hasProgram := false }],
+      stack := [{ moduleId := 1, callType := 2 }, { moduleId := 0, callType := 1, line := 4, started := true }] })).length = 2 := by
+  rfl
+
+/-- the printer's "built-in code" test looks at the frame's own module: a frame of a module without source text is
+native whatever module the head frame belongs to, a frame of a program module is not -/
+theorem native_is_per_frame (vm : VM ν) (fr : Frame) (m : Module) (hid : 0 ≤ fr.moduleId)
+    (hm : vm.modules[fr.moduleId.toNat]? = some m) : fr.isNative vm = !m.hasProgram := by
+  have h1 : ¬ fr.moduleId < 0 := by omega
+  have h2 : (fr.moduleId == -1) = false := by
+    simp only [beq_eq_false_iff_ne, ne_eq]; omega
+  unfold Frame.isNative moduleOf
+  simp [h1, h2, hm]
 
 end ZnVerif.Properties.C18
